@@ -247,6 +247,7 @@ class Exec(EvalMixin, CallMixin):
         st.frames = []
         self.in_ghost = getattr(self, "in_ghost", 0) + 1
         st.ghost_mode = 1
+        res = []
         try:
             res = self.block(tree.body, st)
         finally:
@@ -357,6 +358,13 @@ class Exec(EvalMixin, CallMixin):
         bad.assume(z3.Not(c))
         self.exits.append(Exit("raise", bad, exc="AssertionError", line=node.lineno))
         st.assume(c)
+        t_ = node.test
+        if isinstance(t_, ast.Call) and isinstance(t_.func, ast.Name) and t_.func.id == "isinstance" \
+                and isinstance(t_.args[0], ast.Name) and isinstance(t_.args[1], ast.Name) \
+                and t_.args[0].id in st.env and (t_.args[1].id in self.uni.val_classes
+                                                 or t_.args[1].id in self.uni.obj_classes):
+            old_ = st.env[t_.args[0].id]
+            st.env[t_.args[0].id] = SV(old_.t, self.uni.class_kind(t_.args[1].id), old_.h)   # narrowing, as for `if`
         return [(st, "next")]
 
     def st_If(self, node, st):
